@@ -17,7 +17,7 @@ PROP = "C04"
 # + materialize, mapper.py categorical / multicategorical) : generator kind that reaches it -> oracle key that notices
 # if it is removed, loosened or replaced by a default.
 ERROR_PATHS = [
-    "__call__: df[col] KeyError for a missing feature column : drop_feature calls -> malformed-accepted",
+    "__call__: df[col] KeyError for a missing feature column : drop_feature calls -> no demand (outside the statement); the calls after it are judged",
     "__call__: `target_col in df` special case (y only then) : drop_target, unlabeled, target_missing -> y-without-target, y-rows",
     "__call__: per-storage branches (stack / MultiNestedTensor.cat / dict / MultiEmbeddingTensor.cat) : all nine stypes -> row-local:<stype>",
     "_merge_feat: parent present vs absent, pop of child keys : frames with embedding + text/image children, repeated calls -> names-at-return, names-later, row-local:embedding|text_embedded|image_embedded",
@@ -58,7 +58,15 @@ CLAUSES = [
     "supplying previously computed statistics = recomputing them -> supplied-raises:*, supplied-frame, supplied-stats, "
     "supplied-stats-source-changed <- supplied cases, col_stats passed by keyword / positionally, with device forms; "
     "Coq materialize_ok",
-    "(malformed, outside the quantifier) a frame lacking a feature column raises -> malformed-accepted <- drop_feature",
+    "(malformed, outside the quantifier) a frame lacking a feature column: NO demand (raise or result both accepted, "
+    "Coq not compared when it returns normally) <- drop_feature; afterwards the converter must still work -> the "
+    "keys above on the following calls",
+    # Backing of every must-not-raise key (there is no must-raise key in this module):
+    "convert-raises:* / convert-raises:*:unseen / :unseen-target <- 'encoded as missing ... or left out ... rather than "
+    "raising' and 'gives exactly the corresponding rows' (a raise gives no rows)",
+    "materialize-raises:* / other-materialize-raises:* / supplied-raises:* <- 'After materialization ...' / 'Supplying "
+    "previously computed statistics to materialize gives the same result as recomputing them' (a raise gives no result)",
+    "tensor-frame-index-raises <- observe_at 'dataset.tensor_frame[idx]' for in-range positions of the source frame",
 ]
 HEADER = ("From PF Require Import Gen.Tables Lib.ListX Model.Ragged Model.Mapper Model.MapperSpec Model.Converter "
           "Model.ConverterState.\nOpen Scope Z_scope.")
@@ -80,6 +88,9 @@ TRUSTED = [
     "harness/c04.py: generator, row-by-row oracle against the dataset's own TensorFrame, Coq literal printer",
 ]
 ASSUMPTIONS = [
+    "no input is REQUIRED to raise: a frame lacking a feature column (malformed stream) may raise or return, the "
+    "oracle judges only the calls after it; the Coq model (which mirrors the current raise) is not compared when the "
+    "implementation returns normally there",
     "empty row selections are not drawn (the property names single rows, repeats and reorders)",
     "stub embedders / tokenizer are deterministic row-wise functions of the cell text",
     "timestamp strings with time_format=None are ISO ('%Y-%m-%d %H:%M:%S'): pandas infers the format per call from the "
@@ -579,9 +590,8 @@ def check_call(case, obs, k):
     tag = f"call {k + 1} ({call['kind']}, rows {call['rows']}" + (", unseen values" if call["inject"] else "") + \
         (", without target" if call["drop_target"] else "") + ")"
     if call.get("drop_feature"):
-        if rec["ok"]:
-            return dict(key="malformed-accepted", what=f"{tag}: the frame lacks the feature column "
-                        f"{call['drop_feature']} but the converter returned a frame")
+        # malformed stream (a frame lacking a feature column is outside "any DataFrame with the same columns"): the
+        # statement demands neither a raise nor a result here -- either outcome is accepted, nothing is compared
         return None
     if not rec["ok"]:
         if rec.get("stage") == "harness":
@@ -1064,6 +1074,8 @@ def coq_term(case, obs):
 
 
 def coq_terms(case, obs, full):
+    if any(call.get("drop_feature") and rec["ok"] for call, rec in zip(case["calls"], obs["calls"])):
+        return None        # the implementation tolerated a malformed frame on which the model (current code) raises
     if not obs.get("ok") or any(not rec["ok"] and not call.get("drop_feature")
                                 for call, rec in zip(case["calls"], obs["calls"])):
         return None
